@@ -32,6 +32,7 @@ CONSTANTS
     AllowDecor,    \* explore the skip-decorated variant
     AllowMulti,    \* explore MultipleExceptions ends
     OnExcChoices,  \* subset of BOOLEAN: with / without an addOnException handler
+    PreForceChoices, \* subset of BOOLEAN: force_failure already set on the instance before run()
     StepOps,       \* non-final user operations explored in free mode
     Variant        \* "asRequired" | "asCoded": how Report selects the outcome
 
@@ -42,6 +43,7 @@ SysUnit(u) == u \notin StageUnits /\ u \notin CleanupIds
 CONSTANTS UndoOf(_), GatherOf(_), CleanOf(_),     \* attr / fixture id -> system cleanup id
           FixtureSetUpFails(_),                   \* fixture id -> BOOLEAN
           FixtureCleanKind(_),                    \* fixture id -> kind raised by cleanUp, or None
+          FixtureGatherRaises(_),                 \* fixture id -> BOOLEAN: reading its details raises when they are gathered
           FixtureDetails(_),                      \* fixture id -> set of detail names it carries
           MismatchDetails(_)                      \* mismatch id -> set of detail names it carries
 
@@ -63,7 +65,8 @@ VARIABLES
     seen,        \* what each started unit saw: the patched attributes' state at that moment
     raised,      \* exceptions raised by user code so far: Seq([kind, unit]) (MultipleExceptions flattened)
     setupOk,     \* setUp returned normally
-    force,       \* force_failure set (expectThat mismatch)
+    force,       \* force_failure set (expectThat mismatch, or set on the instance beforehand)
+    force0,      \* force_failure as it was before the first run (part of the program)
     details,     \* Name -> [origin, cid]: the test's details dict
     tbNext,      \* next traceback number (TestCase._traceback_id_gens)
     added,       \* set of [origin, cid, base] ever added (nothing is ever removed)
@@ -76,7 +79,7 @@ VARIABLES
     nsteps,      \* non-final user steps in this run
     prev         \* <<summary of the previous run of this instance>> (<<>> for run 1)
 
-vars == <<pc, run, mode, decor, onexc, script, cur, pos, upcalled, stack, registered, ran, seen, raised, setupOk,
+vars == <<pc, run, mode, decor, onexc, force0, script, cur, pos, upcalled, stack, registered, ran, seen, raised, setupOk,
           force, details, tbNext, added, hcalls, attrs, rlog, outcomeHcalls, propagated, nfaults, nsteps, prev>>
 
 -----------------------------------------------------------------------------
@@ -140,7 +143,7 @@ Init ==
     /\ script = [u \in Units |-> <<>>]
     /\ cur = None /\ pos = 0 /\ upcalled = FALSE
     /\ stack = <<>> /\ registered = <<>> /\ ran = <<>> /\ seen = <<>> /\ raised = <<>>
-    /\ setupOk = FALSE /\ force = FALSE
+    /\ setupOk = FALSE /\ force \in PreForceChoices /\ force0 = force
     /\ details = <<>> /\ tbNext = 0 /\ added = {} /\ hcalls = 0
     /\ attrs = [a \in Attrs |-> InitAttr(a)]
     /\ rlog = <<>> /\ outcomeHcalls = 0 /\ propagated = None
@@ -154,7 +157,7 @@ StartTest ==
     /\ rlog' = Append(rlog, Ev("startTest", None))
     /\ pc' = IF decor THEN "decorskip" ELSE "enter"
     /\ cur' = IF decor THEN None ELSE "setUp"
-    /\ UNCHANGED <<run, mode, decor, onexc, script, pos, upcalled, stack, registered, ran, seen, raised, setupOk, force,
+    /\ UNCHANGED <<run, mode, decor, onexc, force0, script, pos, upcalled, stack, registered, ran, seen, raised, setupOk, force,
                    details, tbNext, added, hcalls, attrs, outcomeHcalls, propagated, nfaults, nsteps, prev>>
 
 \* _run_core: skip decorator => addSkip, no stage runs
@@ -163,7 +166,7 @@ DecoratedSkip ==
     /\ rlog' = Append(rlog, Ev("outcome", "skip"))
     /\ outcomeHcalls' = hcalls
     /\ pc' = "stop"
-    /\ UNCHANGED <<run, mode, decor, onexc, script, cur, pos, upcalled, stack, registered, ran, seen, raised, setupOk,
+    /\ UNCHANGED <<run, mode, decor, onexc, force0, script, cur, pos, upcalled, stack, registered, ran, seen, raised, setupOk,
                    force, details, tbNext, added, hcalls, attrs, propagated, nfaults, nsteps, prev>>
 
 \* the framework calls into a unit of user code
@@ -172,7 +175,7 @@ EnterUnit ==
     /\ ran' = Append(ran, cur) /\ seen' = Append(seen, attrs)
     /\ pos' = 0 /\ upcalled' = FALSE
     /\ pc' = "unit"
-    /\ UNCHANGED <<run, mode, decor, onexc, script, cur, stack, registered, raised, setupOk, force, details,
+    /\ UNCHANGED <<run, mode, decor, onexc, force0, script, cur, stack, registered, raised, setupOk, force, details,
                    tbNext, added, hcalls, attrs, rlog, outcomeHcalls, propagated, nfaults, nsteps, prev>>
 
 -----------------------------------------------------------------------------
@@ -260,7 +263,7 @@ Step ==
           /\ upcalled' = (upcalled \/ s.op = "upcall")
           /\ pos' = pos + 1 /\ nsteps' = nsteps + 1
           /\ script' = IF mode = "free" THEN [script EXCEPT ![cur] = Append(@, s)] ELSE script
-    /\ UNCHANGED <<pc, run, mode, decor, onexc, cur, ran, seen, setupOk, rlog, outcomeHcalls, propagated, nfaults, prev>>
+    /\ UNCHANGED <<pc, run, mode, decor, onexc, force0, cur, ran, seen, setupOk, rlog, outcomeHcalls, propagated, nfaults, prev>>
 
 \* where control goes after unit u finished (ok = returned normally)
 After(u, ok) ==
@@ -302,7 +305,7 @@ EndUnit ==
                 /\ cur' = After(cur, ks = <<>>)[2]
           /\ script' = IF mode = "free" THEN [script EXCEPT ![cur] = Append(@, s)] ELSE script
     /\ pos' = 0 /\ upcalled' = FALSE
-    /\ UNCHANGED <<run, mode, decor, onexc, stack, registered, ran, seen, force, attrs, rlog, outcomeHcalls, propagated,
+    /\ UNCHANGED <<run, mode, decor, onexc, force0, stack, registered, ran, seen, force, attrs, rlog, outcomeHcalls, propagated,
                    nsteps, prev>>
 
 -----------------------------------------------------------------------------
@@ -312,13 +315,13 @@ PopCleanup ==
     /\ cur' = Last(stack)
     /\ stack' = Front(stack)
     /\ pc' = "enter"
-    /\ UNCHANGED <<run, mode, decor, onexc, script, pos, upcalled, registered, ran, seen, raised, setupOk, force, details,
+    /\ UNCHANGED <<run, mode, decor, onexc, force0, script, pos, upcalled, registered, ran, seen, raised, setupOk, force, details,
                    tbNext, added, hcalls, attrs, rlog, outcomeHcalls, propagated, nfaults, nsteps, prev>>
 
 CleanupsDone ==
     /\ pc = "cleanups" /\ stack = <<>>
     /\ pc' = "force" /\ cur' = None
-    /\ UNCHANGED <<run, mode, decor, onexc, script, pos, upcalled, stack, registered, ran, seen, raised, setupOk, force,
+    /\ UNCHANGED <<run, mode, decor, onexc, force0, script, pos, upcalled, stack, registered, ran, seen, raised, setupOk, force,
                    details, tbNext, added, hcalls, attrs, rlog, outcomeHcalls, propagated, nfaults, nsteps, prev>>
 
 \* system cleanups: patch undo, fixture gather_details, fixture cleanUp
@@ -334,9 +337,14 @@ SysCleanup ==
        ELSE IF IsGather(cur)
        THEN LET f == CHOOSE x \in Fixtures : cur = GatherOf(x)
                 pre == "fx:" \o f \o ":" IN
-            /\ details' = AddUnique(details, FixtureDetails(f), "fixture", pre)
-            /\ added' = added \cup AddedOf(FixtureDetails(f), "fixture", pre)
-            /\ UNCHANGED <<attrs, raised, tbNext, hcalls, nfaults>>
+            IF FixtureGatherRaises(f)
+            THEN LET res == Caught(<<"err">>, cur, details, tbNext, added, raised) IN
+                 /\ details' = res[1] /\ tbNext' = res[2] /\ added' = res[3] /\ raised' = res[4]
+                 /\ hcalls' = hcalls + (IF onexc THEN 1 ELSE 0)
+                 /\ UNCHANGED <<attrs, nfaults>>
+            ELSE /\ details' = AddUnique(details, FixtureDetails(f), "fixture", pre)
+                 /\ added' = added \cup AddedOf(FixtureDetails(f), "fixture", pre)
+                 /\ UNCHANGED <<attrs, raised, tbNext, hcalls, nfaults>>
        ELSE LET f == CHOOSE x \in Fixtures : cur = CleanOf(x)
                 ks == IF FixtureCleanKind(f) = None THEN <<>> ELSE <<FixtureCleanKind(f)>>
                 res == Caught(ks, cur, details, tbNext, added, raised) IN
@@ -345,7 +353,7 @@ SysCleanup ==
             /\ nfaults' = nfaults
             /\ UNCHANGED attrs
     /\ pc' = "cleanups" /\ cur' = None
-    /\ UNCHANGED <<run, mode, decor, onexc, script, pos, upcalled, stack, registered, ran, seen, setupOk, force, rlog,
+    /\ UNCHANGED <<run, mode, decor, onexc, force0, script, pos, upcalled, stack, registered, ran, seen, setupOk, force, rlog,
                    outcomeHcalls, propagated, nsteps, prev>>
 
 \* force_failure => _run_user(_raise_force_fail_error): one more "fail" from the framework's own unit
@@ -357,7 +365,7 @@ ForceFail ==
             /\ hcalls' = hcalls + (IF onexc THEN 1 ELSE 0)
        ELSE UNCHANGED <<details, tbNext, added, raised, hcalls>>
     /\ pc' = "report"
-    /\ UNCHANGED <<run, mode, decor, onexc, script, cur, pos, upcalled, stack, registered, ran, seen, setupOk, force,
+    /\ UNCHANGED <<run, mode, decor, onexc, force0, script, cur, pos, upcalled, stack, registered, ran, seen, setupOk, force,
                    attrs, rlog, outcomeHcalls, propagated, nfaults, nsteps, prev>>
 
 -----------------------------------------------------------------------------
@@ -374,7 +382,7 @@ ReportWith(o, p) ==
                 THEN added \cup {[origin |-> "reason", cid |-> "skipreason", base |-> "reason"]} ELSE added
     /\ outcomeHcalls' = hcalls
     /\ pc' = "stop"
-    /\ UNCHANGED <<run, mode, decor, onexc, script, cur, pos, upcalled, stack, registered, ran, seen, raised, setupOk,
+    /\ UNCHANGED <<run, mode, decor, onexc, force0, script, cur, pos, upcalled, stack, registered, ran, seen, raised, setupOk,
                    force, details, tbNext, hcalls, attrs, nfaults, nsteps, prev>>
 
 Report ==
@@ -392,7 +400,7 @@ StopTest ==
     /\ pc = "stop"
     /\ rlog' = Append(rlog, Ev("stopTest", None))
     /\ pc' = "done"
-    /\ UNCHANGED <<run, mode, decor, onexc, script, cur, pos, upcalled, stack, registered, ran, seen, raised, setupOk,
+    /\ UNCHANGED <<run, mode, decor, onexc, force0, script, cur, pos, upcalled, stack, registered, ran, seen, raised, setupOk,
                    force, details, tbNext, added, hcalls, attrs, outcomeHcalls, propagated, nfaults, nsteps, prev>>
 
 OutcomeOf(l) == IF \E i \in DOMAIN l : l[i].ev = "outcome"
@@ -409,7 +417,7 @@ Rerun ==
     /\ setupOk' = FALSE
     /\ details' = <<>> /\ tbNext' = 0 /\ added' = {} /\ hcalls' = 0
     /\ rlog' = <<>> /\ outcomeHcalls' = 0 /\ propagated' = None /\ nfaults' = 0 /\ nsteps' = 0
-    /\ UNCHANGED <<decor, onexc, script, force, attrs>>
+    /\ UNCHANGED <<decor, onexc, force0, script, force, attrs>>
 
 Next == StartTest \/ DecoratedSkip \/ EnterUnit \/ Step \/ EndUnit \/ PopCleanup \/ CleanupsDone
         \/ SysCleanup \/ ForceFail \/ Report \/ StopTest \/ Rerun
@@ -472,7 +480,7 @@ HandlersCalled == pc \in {"stop", "done"} =>
 
 -----------------------------------------------------------------------------
 (* Export: one program (script + flags) per complete first run              *)
-Program == [decor |-> decor, onexc |-> onexc, script |-> script]
+Program == [decor |-> decor, onexc |-> onexc, preforce |-> force0, script |-> script]
 Expected == [ran |-> ran, seen |-> seen, raised |-> raised, setupOk |-> setupOk, registered |-> registered,
              allowed |-> Allowed(raised), mayprop |-> MayPropagate(raised),
              nadded |-> Cardinality(added), force |-> force]
